@@ -7,6 +7,8 @@ package c17
 // formats independent of the random draws.
 
 import (
+	"fmt"
+	"strconv"
 	"testing"
 
 	"github.com/tidwall/tile38/verif/harness/ev"
@@ -262,6 +264,22 @@ func TestC17_Grid(t *testing.T) {
 		for _, lane := range lanesAll {
 			name, _, _ := cmdName(cmd)
 			p.Steps = append(p.Steps, mkStep(cmd, lane, name, "grid"))
+		}
+	}
+	// circle Features whose disc touches a pole, and every output that prints a box or a distance
+	for i, pc := range []struct{ lat, lon float64 }{{1.5, 10}, {-60, -170}, {88, 0}, {0, 180}} {
+		for j, d := range polarDeltas {
+			id := fmt.Sprintf("c%d_%d", i, j)
+			for _, cmd := range append([][]string{{"SET", "polar", id, "FIELD", "n", strconv.Itoa(j + 1), "OBJECT", polarCircle(pc.lat, pc.lon, d)}}, polarQueries("polar", id)[:5]...) {
+				name, _, _ := cmdName(cmd)
+				p.Steps = append(p.Steps, mkStep(cmd, lanesAll[(i*7+j)%len(lanesAll)], name, "grid"))
+			}
+		}
+	}
+	for k, cmd := range polarQueries("polar", "c0_0")[5:] {
+		for l := 0; l < 3; l++ {
+			name, _, _ := cmdName(cmd)
+			p.Steps = append(p.Steps, mkStep(cmd, lanesAll[(k+l*3)%len(lanesAll)], name, "grid"))
 		}
 	}
 	nfSteps := nonFiniteSlotSteps()
